@@ -140,6 +140,20 @@ Proof.
   - intros p fs gs vs _. reflexivity.
 Qed.
 
+(* The printer of argument types is NOT injective on all types (both pairs confirmed on the
+   real Display implementation by the harness on every run): the empty tuple and the empty
+   named tuple, and field names containing the quote the printer does not escape.  No library
+   operation takes such arguments, so this stays outside C08's quantifier; it is why the
+   totality theorem takes injectivity on the occurring keys as a hypothesis and the tie
+   decides that hypothesis on every case. *)
+Example C08_type_printing_not_injective :
+  (TTuple [] <> TNamed [] /\ ty_str (TTuple []) = ty_str (TNamed [])) /\
+  (TNamed [("a\"": i32, \""b"%string, TScalar I32)]
+     <> TNamed [("a"%string, TScalar I32); ("b"%string, TScalar I32)] /\
+   ty_str (TNamed [("a\"": i32, \""b"%string, TScalar I32)])
+     = ty_str (TNamed [("a"%string, TScalar I32); ("b"%string, TScalar I32)])).
+Proof. repeat split; try discriminate; reflexivity. Qed.
+
 Print Assumptions C08_inst_pass_total.
 Print Assumptions C08_names_distinct.
 Print Assumptions C08_names_collide_refutes.
